@@ -33,6 +33,10 @@ func (p *partDisk) Writer() io.WriteSeeker {
 
 // Reader implements Part.
 func (p *partDisk) Reader() (io.ReadCloser, error) {
+	// Finalize() can be called at any time by the routine that is writing the file
+	p.s.mutex.Lock()
+	defer p.s.mutex.Unlock()
+
 	// read from RAM if possible
 	if p.buffer != nil {
 		verifYield("partDisk.Reader")
